@@ -31,6 +31,7 @@ from .values import (
     is_nan,
     JS_WHITESPACE,
     native_result,
+    array_index,
 )
 from .errors import (
     JSError,
@@ -211,6 +212,11 @@ class ForOfIterator:
         value = self.values[self.index]
         self.index += 1
         return value, False
+
+
+def proto_value_ok(value: JSValue) -> bool:
+    """Can this value be a prototype (an object or null)? Functions are not supported."""
+    return value is NULL or isinstance(value, JSObject)
 
 
 class VM:
@@ -469,11 +475,7 @@ class VM:
             self.stack.append(arr)
 
         elif op == OpCode.BUILD_OBJECT:
-            obj = JSObject()
-            # Set prototype from Object constructor
-            object_constructor = self.globals.get("Object")
-            if object_constructor and hasattr(object_constructor, "_prototype"):
-                obj._prototype = object_constructor._prototype
+            obj = JSObject(self._object_prototype())
             props = []
             for _ in range(arg):
                 value = self.stack.pop()
@@ -488,10 +490,8 @@ class VM:
                     obj.define_setter(key_str, value)
                 elif key_str == "__proto__" and kind == "init":
                     # __proto__ in object literal sets the prototype
-                    if value is NULL or value is None:
-                        obj._prototype = None
-                    elif isinstance(value, JSObject):
-                        obj._prototype = value
+                    if proto_value_ok(value):
+                        self._set_prototype(obj, value)
                 else:
                     obj.set(key_str, value)
             self.stack.append(obj)
@@ -694,25 +694,12 @@ class VM:
             if not isinstance(obj, JSObject):
                 self.stack.append(False)
             else:
-                # Get constructor's prototype property
-                # For JSFunction, check _prototype attribute (if set and not None)
-                # For JSCallableObject and other constructors, use get("prototype")
-                proto = None
-                if (
-                    isinstance(constructor, JSFunction)
-                    and getattr(constructor, "_prototype", None) is not None
-                ):
-                    proto = constructor._prototype
-                elif isinstance(constructor, JSObject):
-                    # Try get("prototype") first for callable objects, fall back to _prototype
-                    proto = constructor.get("prototype")
-                    if proto is None or proto is UNDEFINED:
-                        proto = getattr(constructor, "_prototype", None)
+                proto = self._constructor_prototype(constructor)
 
                 # Walk the prototype chain
                 result = False
                 current = getattr(obj, "_prototype", None)
-                while current is not None:
+                while current is not None and proto is not None:
                     if current is proto:
                         result = True
                         break
@@ -722,10 +709,11 @@ class VM:
         elif op == OpCode.IN:
             obj = self.stack.pop()
             key = self.stack.pop()
-            if not isinstance(obj, JSObject):
+            holder = self._property_holder(obj)
+            if holder is None:
                 raise JSTypeError("Cannot use 'in' operator on non-object")
             key_str = to_string(key)
-            self.stack.append(obj.has(key_str))
+            self.stack.append(self._has_property(obj, holder, key_str))
 
         # Control flow
         elif op == OpCode.JUMP:
@@ -760,7 +748,7 @@ class VM:
             del self.stack[popped_frame.bp :]
             # For constructor calls, return the new object unless result is an object
             if popped_frame.is_constructor_call:
-                if not isinstance(result, JSObject):
+                if not isinstance(result, (JSObject, JSFunction)):
                     result = popped_frame.new_target
             self.stack.append(result)
 
@@ -804,13 +792,11 @@ class VM:
             obj = self.stack.pop()
             if obj is UNDEFINED or obj is NULL:
                 keys = []
-            elif isinstance(obj, JSArray):
-                # For arrays, iterate over numeric indices as strings
-                keys = [str(i) for i in range(len(obj._elements))]
-                # Also include any non-numeric properties
-                keys.extend(obj.keys())
             elif isinstance(obj, JSObject):
+                # Own keys (for arrays: the indices, then the other properties)
                 keys = obj.keys()
+            elif isinstance(obj, JSFunction):
+                keys = obj.properties.keys()
             else:
                 keys = []
             self.stack.append(ForInIterator(keys))
@@ -876,9 +862,13 @@ class VM:
 
                 # Create prototype object for the function
                 # In JavaScript, every function has a prototype property
-                prototype = JSObject()
-                prototype.set("constructor", js_func)
-                js_func._prototype = prototype
+                if compiled_func.is_arrow:
+                    # Arrow functions have no prototype and use the enclosing `this`
+                    js_func._lexical_this = frame.this_value
+                else:
+                    prototype = JSObject(self._object_prototype())
+                    prototype.set_hidden("constructor", js_func)
+                    js_func.properties.set_hidden("prototype", prototype)
 
                 # Capture closure cells for free variables
                 if compiled_func.free_vars:
@@ -1070,6 +1060,113 @@ class VM:
 
         return False
 
+    # ---- object model: one definition of "own first, then up the prototype chain"
+
+    def _object_prototype(self) -> Optional[JSObject]:
+        """Object.prototype of this context (None before the globals exist)."""
+        constructor = self.globals.get("Object")
+        proto = constructor.get("prototype") if isinstance(constructor, JSObject) else None
+        return proto if isinstance(proto, JSObject) else None
+
+    def _property_holder(self, obj: JSValue) -> Optional[JSObject]:
+        """The object whose property tables describe `obj`: the object itself, or the
+        side table of a function (linked to Function.prototype)."""
+        if isinstance(obj, JSFunction):
+            holder = obj.properties
+            if holder._prototype is None:
+                constructor = self.globals.get("Function")
+                proto = constructor.get("prototype") if isinstance(constructor, JSObject) else None
+                if isinstance(proto, JSObject):
+                    holder._prototype = proto
+            return holder
+        if isinstance(obj, JSObject):
+            return obj
+        return None
+
+    def _find_property(self, holder: JSObject, key: str) -> Optional[tuple]:
+        """Find a property own-first along the prototype chain:
+        ("data", value) or ("accessor", getter, setter), or None."""
+        current = holder
+        while current is not None:
+            if key in current._getters or key in current._setters:
+                return ("accessor", current._getters.get(key), current._setters.get(key))
+            if key in current._properties:
+                return ("data", current._properties[key])
+            if isinstance(current, JSArray) and current is not holder and current.has_own(key):
+                # an array used as a prototype contributes its elements
+                if key == "length":
+                    return ("data", current.length)
+                return ("data", current.get_index(int(key)))
+            current = current._prototype
+        return None
+
+    def _read_found(self, found: tuple, receiver: JSValue) -> JSValue:
+        if found[0] == "data":
+            return found[1]
+        if found[1] is None:
+            return UNDEFINED  # accessor without a getter
+        return self._invoke_getter(found[1], receiver)
+
+    def _get_from_chain(self, holder: JSObject, key: str, receiver: JSValue) -> JSValue:
+        found = self._find_property(holder, key)
+        if found is not None:
+            return self._read_found(found, receiver)
+        if key == "__proto__" and self._inherits_object_prototype(holder):
+            return holder._prototype if holder._prototype is not None else NULL
+        return UNDEFINED
+
+    def _inherits_object_prototype(self, holder: JSObject) -> bool:
+        """__proto__ is an accessor of Object.prototype: objects cut off from it lack it."""
+        root = self._object_prototype()
+        current = holder
+        while current is not None:
+            if current is root:
+                return True
+            current = current._prototype
+        return False
+
+    def _has_property(self, obj: JSValue, holder: JSObject, key: str) -> bool:
+        """The `in` operator: own or inherited, data or accessor."""
+        if isinstance(obj, JSFunction) and key in ("length", "name"):
+            return True
+        if isinstance(obj, JSTypedArray):
+            index = array_index(key)
+            if index is not None:
+                return index < obj.length
+            if key == "length":
+                return True
+        current = holder
+        while current is not None:
+            if current.has_own(key):
+                return True
+            current = current._prototype
+        return False
+
+    def _constructor_prototype(self, constructor: JSValue) -> Optional[JSObject]:
+        """The object `new constructor` links instances to / instanceof compares with."""
+        if isinstance(constructor, JSFunction):
+            target = getattr(constructor, "_original_func", constructor)  # bound function
+            proto = target.properties._properties.get("prototype")
+        elif isinstance(constructor, JSObject):
+            proto = constructor.get("prototype")
+            if not isinstance(proto, JSObject):
+                proto = getattr(constructor, "_prototype", None)
+        else:
+            proto = None
+        return proto if isinstance(proto, JSObject) else None
+
+    def _set_prototype(self, obj: JSObject, proto: JSValue) -> None:
+        """Link obj to a new prototype (an object or null); cycles are an error."""
+        if proto is NULL or proto is None:
+            obj._prototype = None
+            return
+        current = proto
+        while current is not None:
+            if current is obj:
+                raise JSTypeError("Cyclic __proto__ value")
+            current = current._prototype
+        obj._prototype = proto
+
     def _get_property(self, obj: JSValue, key: JSValue) -> JSValue:
         """Get property from object."""
         if obj is UNDEFINED or obj is NULL:
@@ -1101,7 +1198,7 @@ class VM:
             typed_array_methods = ["toString", "join", "subarray", "set"]
             if key_str in typed_array_methods:
                 return self._make_typed_array_method(obj, key_str)
-            return obj.get(key_str)
+            return self._get_from_chain(obj, key_str, obj)
 
         if isinstance(obj, JSArray):
             # Array index access
@@ -1139,9 +1236,9 @@ class VM:
                 "includes",
                 "sort",
             ]
-            if key_str in array_methods:
+            if key_str in array_methods and not obj.has_own(key_str):
                 return self._make_array_method(obj, key_str)
-            return obj.get(key_str)
+            return self._get_from_chain(obj, key_str, obj)
 
         if isinstance(obj, JSRegExp):
             # RegExp methods and properties
@@ -1163,31 +1260,22 @@ class VM:
             return UNDEFINED
 
         if isinstance(obj, JSFunction):
-            # Function methods
-            if key_str in ("bind", "call", "apply", "toString"):
-                return self._make_function_method(obj, key_str)
-            if key_str == "length":
-                return len(obj.params)
-            if key_str == "name":
-                return obj.name
-            if key_str == "prototype":
-                return getattr(obj, "_prototype", UNDEFINED) or UNDEFINED
-            return UNDEFINED
+            if not obj.properties.has_own(key_str):
+                # Function methods
+                if key_str in ("bind", "call", "apply", "toString"):
+                    return self._make_function_method(obj, key_str)
+                if key_str == "length":
+                    return len(obj.params)
+                if key_str == "name":
+                    return obj.name
+            return self._get_from_chain(self._property_holder(obj), key_str, obj)
 
         if isinstance(obj, JSObject):
-            # Check for getter first
-            getter = obj.get_getter(key_str)
-            if getter is not None:
-                return self._invoke_getter(getter, obj)
-            # Check own property
-            if obj.has(key_str):
-                return obj.get(key_str)
-            # Check prototype chain
-            proto = getattr(obj, "_prototype", None)
-            while proto is not None:
-                if isinstance(proto, JSObject) and proto.has(key_str):
-                    return proto.get(key_str)
-                proto = getattr(proto, "_prototype", None)
+            found = self._find_property(obj, key_str)
+            if found is not None:
+                return self._read_found(found, obj)
+            if key_str == "__proto__" and self._inherits_object_prototype(obj):
+                return obj._prototype if obj._prototype is not None else NULL
             # Built-in Object methods as fallback
             if key_str in ("toString", "hasOwnProperty"):
                 return self._make_object_method(obj, key_str)
@@ -1556,25 +1644,33 @@ class VM:
             """Create a bound function with fixed this and optional partial args."""
             bound_this = args[0] if args else UNDEFINED
             bound_args = list(args[1:]) if len(args) > 1 else []
+            target = func
+            if hasattr(func, "_original_func"):
+                # Binding a bound function: the first this stays, arguments accumulate
+                target = func._original_func
+                bound_this = func._bound_this
+                bound_args = list(func._bound_args) + bound_args
 
             # Create a new function that wraps the original
             bound_func = JSFunction(
                 name=func.name,
-                params=func.params[
+                params=target.params[
                     len(bound_args) :
                 ],  # Remaining params after bound args
-                bytecode=func.bytecode,
+                bytecode=target.bytecode,
             )
             # Copy compiled function reference
-            if hasattr(func, "_compiled"):
-                bound_func._compiled = func._compiled
+            if hasattr(target, "_compiled"):
+                bound_func._compiled = target._compiled
             # Copy closure cells
-            if hasattr(func, "_closure_cells"):
-                bound_func._closure_cells = func._closure_cells
+            if hasattr(target, "_closure_cells"):
+                bound_func._closure_cells = target._closure_cells
+            if hasattr(target, "_lexical_this"):
+                bound_func._lexical_this = target._lexical_this
             # Store binding info on the function
             bound_func._bound_this = bound_this
             bound_func._bound_args = bound_args
-            bound_func._original_func = func
+            bound_func._original_func = target
             return bound_func
 
         def call_fn(*args):
@@ -1672,19 +1768,9 @@ class VM:
     def _call_function_internal(
         self, func: JSFunction, this_val: JSValue, args: List[JSValue]
     ) -> JSValue:
-        """Internal method to call a function with explicit this and args."""
-        # Handle bound functions
-        if hasattr(func, "_bound_this"):
-            this_val = func._bound_this
-        if hasattr(func, "_bound_args"):
-            args = list(func._bound_args) + list(args)
-        if hasattr(func, "_original_func"):
-            func = func._original_func
-
-        # Use existing invoke mechanism
-        self._invoke_js_function(func, args, this_val)
-        result = self._execute()
-        return result
+        """Internal method to call a function with explicit this and args (call/apply)."""
+        # Runs the callee's frames to completion, like any callback of native code
+        return self._call_callback(func, args, this_val)
 
     def _make_regexp_method(self, re: JSRegExp, method: str) -> Any:
         """Create a bound RegExp method."""
@@ -2348,21 +2434,49 @@ class VM:
                     raise JSTypeError(f"Cannot set property '{key_str}' on array")
             except ValueError:
                 pass  # Not a number, allow as string property
-            obj.set(key_str, value)
-        elif isinstance(obj, JSObject):
-            # Check for setter
-            setter = obj.get_setter(key_str)
-            if setter is not None:
-                self._invoke_setter(setter, obj, value)
-            else:
-                obj.set(key_str, value)
+            self._set_ordinary(obj, key_str, value)
+        elif isinstance(obj, (JSObject, JSFunction)):
+            self._set_ordinary(obj, key_str, value)
+
+    def _set_ordinary(self, obj: JSValue, key_str: str, value: JSValue) -> None:
+        """Assignment to a property of an ordinary object or function: an accessor found
+        anywhere on the chain takes the value (with the receiver as this), otherwise the
+        receiver gets an own data property."""
+        holder = self._property_holder(obj)
+        if isinstance(obj, JSFunction) and key_str in ("length", "name"):
+            if not holder.has_own(key_str):
+                return  # read-only
+        if (
+            key_str == "__proto__"
+            and not holder.has_own(key_str)
+            and self._inherits_object_prototype(holder)
+        ):
+            if proto_value_ok(value):
+                self._set_prototype(holder, value)
+            return
+        found = self._find_property(holder, key_str)
+        if found is not None and found[0] == "accessor":
+            if found[2] is not None:
+                self._invoke_setter(found[2], obj, value)
+            return  # no setter: the assignment has no effect
+        holder.set(key_str, value)
 
     def _delete_property(self, obj: JSValue, key: JSValue) -> bool:
         """Delete property from object."""
+        key_str = to_string(key) if not isinstance(key, str) else key
+        if isinstance(obj, JSFunction):
+            if key_str != "prototype":
+                obj.properties.delete(key_str)
+            return key_str != "prototype"
+        if isinstance(obj, (JSArray, JSTypedArray)) and (
+            key_str == "length" or array_index(key_str) is not None
+        ):
+            # Elements cannot be removed (no holes): only a missing one "deletes"
+            return not obj.has_own(key_str) and key_str != "length"
         if isinstance(obj, JSObject):
-            key_str = to_string(key) if not isinstance(key, str) else key
-            return obj.delete(key_str)
-        return False
+            obj.delete(key_str)
+        # Deleting what is not there succeeds
+        return True
 
     def _invoke_getter(self, getter: Any, this_val: JSValue) -> JSValue:
         """Invoke a getter function and return its result."""
@@ -2471,12 +2585,14 @@ class VM:
     ) -> None:
         """Invoke a JavaScript function."""
         # Handle bound functions
-        if hasattr(func, "_bound_this"):
-            this_val = func._bound_this
+        if hasattr(func, "_bound_this") and not is_constructor:
+            this_val = func._bound_this  # `new` ignores the bound this
         if hasattr(func, "_bound_args"):
             args = list(func._bound_args) + list(args)
         if hasattr(func, "_original_func"):
             func = func._original_func
+        if hasattr(func, "_lexical_this"):
+            this_val = func._lexical_this  # arrow function
 
         compiled = getattr(func, "_compiled", None)
         if compiled is None:
@@ -2491,7 +2607,10 @@ class VM:
         # Create 'arguments' object (stored after params in locals)
         # The 'arguments' slot is at index len(compiled.params)
         arguments_slot = len(compiled.params)
-        if arguments_slot < compiled.num_locals:
+        if (
+            arguments_slot < compiled.num_locals
+            and compiled.locals[arguments_slot] == "arguments"
+        ):
             arguments_obj = JSArray()
             arguments_obj._elements = list(args)
             locals_list[arguments_slot] = arguments_obj
@@ -2540,11 +2659,12 @@ class VM:
         constructor = self.stack.pop()
 
         if isinstance(constructor, JSFunction):
-            # Create new object
-            obj = JSObject()
-            # Set prototype from constructor's prototype property
-            if hasattr(constructor, "_prototype"):
-                obj._prototype = constructor._prototype
+            if hasattr(getattr(constructor, "_original_func", constructor), "_lexical_this"):
+                raise JSTypeError("Arrow functions are not constructors")
+            # Create new object linked to the constructor's prototype property
+            obj = JSObject(
+                self._constructor_prototype(constructor) or self._object_prototype()
+            )
             # Call constructor with new object as 'this'
             # Mark this as a constructor call so RETURN knows to return the object
             self._invoke_js_function(
